@@ -10,6 +10,11 @@ VF_GHOSTS
 #define VF_ND 2
 #endif
 #define BB(o) ((unsigned)f->buf[(o)])
+/* element width on disk = the type code: 2 for INT, 1 for BYTE (a BYTE parameter only comes from a loaded file; its values
+ * sit in the same int vector and each is written as its low byte - the byte-typed values of C04) */
+#ifndef VF_W
+#define VF_W 2
+#endif
 
 void h_B_Parameter_write_int(void)
 {
@@ -19,7 +24,7 @@ void h_B_Parameter_write_int(void)
   self->_name.size = L; self->_name.data = (char *)vf_alloc(3); self->_name.data[L] = 0;
   self->_description.size = D; self->_description.data = (char *)vf_alloc(3); self->_description.data[D] = 0;
   /* no "DATA_START" special case: names of at most 2 characters */
-  self->_data_type = 2;
+  self->_data_type = VF_W;
   self->_dimension.size = nd;
   self->_dimension.data = (size_t *)vf_alloc(2 * sizeof(size_t));
   __CPROVER_assume(self->_dimension.data[0] <= 2 && (nd < 2 || self->_dimension.data[1] <= 2));
@@ -43,7 +48,7 @@ void h_B_Parameter_write_int(void)
   _Bool scalar = (nd == 1 && d0 == 1);
   size_t ndw = scalar ? 0 : nd;             /* dimension bytes written */
   size_t data_at = p0 + 2 + L + 2 + 1 + 1 + ndw;
-  size_t desc_at = data_at + 2 * n;
+  size_t desc_at = data_at + VF_W * n;
   size_t end = desc_at + 1 + D;
   /*@ C03 C14 : Parameter_write.record-length */
   __CPROVER_assert(vf_exc == 0 && !f->fail && (size_t)f->pos == end && f->len == end, "record = 2 + name + 2 + 1 + 1 + dims + data + 1 + description bytes");
@@ -56,14 +61,18 @@ void h_B_Parameter_write_int(void)
   /*@ C03 C02 : Parameter_write.offset-to-the-next-record */
   __CPROVER_assert((BB(p0 + 2 + L) | (BB(p0 + 3 + L) << 8)) == end - (p0 + 2 + L), "offset word: distance from the word to the end of the record");
   /*@ C03 C12 : Parameter_write.type-byte */
-  __CPROVER_assert(BB(p0 + 4 + L) == 2, "element width 2 = 16-bit integers");
+  __CPROVER_assert(BB(p0 + 4 + L) == VF_W, "element width: 2 = 16-bit integers, 1 = bytes");
   /*@ C03 C01 : Parameter_write.dimension-count-byte */
   __CPROVER_assert(BB(p0 + 5 + L) == ndw, "0 for a scalar, else the number of dimensions");
   /*@ C03 C01 : Parameter_write.dimension-bytes */
   __CPROVER_assert(scalar || vf_gd >= nd || BB(p0 + 6 + L + vf_gd) == self->_dimension.data[vf_gd], "one byte per dimension");
   /*@ C03 C01 C12 C14 : Parameter_write.elements-in-storage-order */
+#if VF_W == 2
   __CPROVER_assert(vf_gv >= n || (BB(data_at + 2 * vf_gv) | (BB(data_at + 2 * vf_gv + 1) << 8)) == ((unsigned)self->_param_data_int.data[vf_gv] & 0xFFFF),
                    "element k as a little-endian 16-bit word at data + 2k");
+#else
+  __CPROVER_assert(vf_gv >= n || BB(data_at + vf_gv) == ((unsigned)self->_param_data_int.data[vf_gv] & 0xFF), "element k as one byte at data + k");
+#endif
   /*@ C03 C04 : Parameter_write.description-length-byte */
   __CPROVER_assert(BB(desc_at) == D, "description length");
   /*@ C03 C04 C14 : Parameter_write.description-bytes */
